@@ -50,7 +50,7 @@ static GroupRun run_group(const Cfg& cfg, const std::vector<int>& block_of, cons
 static void check_line(const RCfg& rc, const std::vector<int>& block_of, const std::vector<Use>& uses, int maxdev, uint64_t case_idx) {
    const Cfg& cfg = rc.cfg;
    for (size_t i = 1; i < uses.size(); ++i) if (cfg.args[uses[i].arg].positional() && cfg.args[uses[i - 1].arg].multival) return;
-   for_each_spelling(cfg, uses, maxdev, [&](const std::vector<std::string>& words, int) {
+   auto compare = [&](const std::vector<std::string>& words, int) {
       Outcome single = run(cfg, words);
       for (int rev = 0; rev < 2; ++rev) {
          GroupRun grp = run_group(cfg, block_of, words, rev != 0); ++g_evals; vf::heartbeat();
@@ -66,7 +66,14 @@ static void check_line(const RCfg& rc, const std::vector<int>& block_of, const s
          else vf::violation("group-rejects|" + rc.family + "|" + grp.what.substr(0, grp.what.find('\'')) + xm, ctx + ": accepted by the single handler but rejected through the group (" + grp.what + ")", std::to_string(case_idx));
          int nb = 0; for (int b : block_of) nb = std::max(nb, b + 1); if (nb == 1) break;     // one member: creation order is irrelevant
       }
-   });
+   };
+   for_each_spelling(cfg, uses, maxdev, compare);
+   // abbreviations disabled: a proper prefix of a long key must be refused by the group exactly as by the single handler
+   if (!cfg.abbr && uses.size() == 1 && cfg.args[uses[0].arg].lk.size() >= 3) {
+      const Arg& a = cfg.args[uses[0].arg]; std::vector<std::string> words{"--" + a.lk.substr(0, a.lk.size() - 1)};
+      if (uses[0].hasval) words.push_back(uses[0].val);
+      compare(words, 1);
+   }
 }
 
 static void duplicate_definitions(uint64_t case_idx) {
